@@ -38,6 +38,8 @@ type GenOpts struct {
 	NearExpiry       bool   // allow expiries within a few ms..seconds after NowMs (they may elapse during the run)
 	MaxDBs           int    // default 4 databases out of 0..15
 	Off              Hazard // input families NOT to generate in this dataset
+	NoEmptyKey       bool   // never draw the empty key name
+	MaxElemLen       int    // >0: every element (and string value) is cut to this many bytes (small snapshots for C04)
 }
 
 type gen struct {
@@ -139,6 +141,9 @@ func (g *gen) elem(cheap bool) []byte {
 	e := g.elemRaw(cheap)
 	if g.maxElemLen > 0 && len(e) > g.maxElemLen {
 		e = e[:g.maxElemLen]
+	}
+	if g.o.MaxElemLen > 0 && len(e) > g.o.MaxElemLen {
+		e = e[:g.o.MaxElemLen]
 	}
 	return e
 }
@@ -306,6 +311,9 @@ func (g *gen) keyName(db int) []byte {
 			k = []byte(fmt.Sprintf("{tag%d}:%d", g.c.Choose("tag", 4), g.c.Choose("keyn", 100000)))
 		case 5:
 			k = []byte{}
+			if g.o.NoEmptyKey {
+				k = []byte("e")
+			}
 		default:
 			k = []byte([]string{"a b", "line\r\nbreak", "quote\"'", "nul\x00byte", "*3\r\n$3\r\nset", "ключ", "k}{"}[g.c.Choose("keyodd", 7)])
 			k = append(k, []byte(strconv.Itoa(g.c.Choose("keyoddn", 50)))...)
@@ -771,6 +779,9 @@ func Gen(c *simrt.Chooser, o GenOpts) *Dataset {
 			g.o.AllowBig = false
 		}
 		v, e := g.value(kind)
+		if g.o.MaxElemLen > 0 && len(v.Str) > g.o.MaxElemLen {
+			v.Str = v.Str[:g.o.MaxElemLen]
+		}
 		if v.Elems() >= 500 {
 			bigLeft--
 		}
